@@ -6,8 +6,7 @@
    indented code; column/tab arithmetic with partially consumed tabs (cursor = byte index, column, columns
    left of the tab under the cursor); link reference definitions split off the front of a paragraph when it closes
    (label, destination, optional title on the same or a following line; SplitDefs); HTML blocks (the seven start
-   conditions with the complete-tag grammar of condition 7, their end conditions).  Not yet modelled: CR line endings
-   (shapes avoid them); a paragraph that consists of definitions only and is followed by a setext
+   conditions with the complete-tag grammar of condition 7, their end conditions).  CR and CRLF line endings (shape sets corecr, corecrlf, coremixed, defscrlf, htmlcr); a paragraph that consists of definitions only and is followed by a setext
    underline is left to the shapes' discretion (the reference implementations disagree on "---" there).
 
    ParseDoc(bytes) yields the block skeleton with byte offsets; Emit prints it for every document over a
@@ -108,7 +107,8 @@ DIsWS(b) == b \in {SP, TAB, LF, 13}
 RECURSIVE DSkipSpTab(_, _)
 DSkipSpTab(B, i) == IF DAt(B, i) \in {SP, TAB} THEN DSkipSpTab(B, i + 1) ELSE i
 \* spaces, tabs and at most one line ending
-DSkipLinkSpace(B, i) == LET a == DSkipSpTab(B, i) IN IF DAt(B, a) = LF THEN DSkipSpTab(B, a + 1) ELSE a
+AfterEOL(B, a) == IF DAt(B, a) = LF THEN a + 1 ELSE IF DAt(B, a) = 13 THEN (IF DAt(B, a + 1) = LF THEN a + 2 ELSE a + 1) ELSE a
+DSkipLinkSpace(B, i) == LET a == DSkipSpTab(B, i) IN IF DAt(B, a) \in {LF, 13} THEN DSkipSpTab(B, AfterEOL(B, a)) ELSE a
 \* label content starting at i (after '['): index after ']' or 0; needs a non-blank character, no unescaped brackets
 RECURSIVE DLabelEnd(_, _, _)
 DLabelEnd(B, i, seen) ==
@@ -129,7 +129,7 @@ DDestEnd(B, i, depth) ==
 RECURSIVE DAngleEnd(_, _)
 DAngleEnd(B, i) ==
   LET c == DAt(B, i) IN
-  IF c = -1 \/ c = LF \/ c = LTC THEN 0
+  IF c = -1 \/ c = LF \/ c = 13 \/ c = LTC THEN 0
   ELSE IF c = BSL /\ DIsPunct(DAt(B, i + 1)) THEN DAngleEnd(B, i + 2)
   ELSE IF c = GT THEN i + 1
   ELSE DAngleEnd(B, i + 1)
@@ -151,16 +151,16 @@ ParseDef(B, p) ==
                 de == IF DAt(B, a) = LTC THEN DAngleEnd(B, a + 1) ELSE (LET e == DDestEnd(B, a, 0) IN IF e > a THEN e ELSE 0)
             IN IF a > Len(B) \/ de = 0 THEN NoDef
                ELSE LET b == DSkipSpTab(B, de)
-                        atEOL == DAt(B, b) \in {LF, -1}
-                        destNext == IF DAt(B, b) = LF THEN b + 1 ELSE b
+                        atEOL == DAt(B, b) \in {LF, 13, -1}
+                        destNext == AfterEOL(B, b)
                         t0 == DSkipLinkSpace(B, de)
                         tc == DAt(B, t0)
                         opener == tc \in {DQ, SQ, LPAR} /\ t0 > de
                         te == IF opener THEN DTitleEnd(B, t0 + 1, (IF tc = LPAR THEN RPAR ELSE tc), tc) ELSE 0
                         c == IF te > 0 THEN DSkipSpTab(B, te) ELSE 0
-                        titleOK == te > 0 /\ DAt(B, c) \in {LF, -1}
+                        titleOK == te > 0 /\ DAt(B, c) \in {LF, 13, -1}
                         base == [ok |-> TRUE, llo |-> p + 1, lhi |-> le - 1, dlo |-> a, dhi |-> de, tlo |-> 0, thi |-> 0, next |-> destNext]
-                    IN IF titleOK THEN [base EXCEPT !.tlo = t0, !.thi = te, !.next = (IF DAt(B, c) = LF THEN c + 1 ELSE c)]
+                    IN IF titleOK THEN [base EXCEPT !.tlo = t0, !.thi = te, !.next = AfterEOL(B, c)]
                        ELSE IF atEOL THEN base
                        ELSE NoDef
 \* Named deviation (the implementation's documented choice, see known_findings.json F-C06-indented-following-definition):
@@ -404,8 +404,10 @@ ProcessLine(st, L, ls, src) ==
 RECURSIVE SplitLines(_, _, _)
 SplitLines(src, from, acc) ==
   IF from > Len(src) THEN acc
-  ELSE LET nl == {k \in from..Len(src) : src[k] = LF}
-           e == IF nl = {} THEN Len(src) ELSE CHOOSE k \in nl : \A j \in nl : k <= j
+  ELSE LET nl == {k \in from..Len(src) : src[k] \in {LF, 13}}
+           f == IF nl = {} THEN Len(src) ELSE CHOOSE k \in nl : \A j \in nl : k <= j
+           \* LF, CR and CRLF are one line ending each
+           e == IF nl # {} /\ src[f] = 13 /\ f < Len(src) /\ src[f + 1] = LF THEN f + 1 ELSE f
        IN SplitLines(src, e + 1, Append(acc, <<from - 1, e>>))      \* 0-based [s,e)
 
 RECURSIVE Feed(_, _, _, _)
@@ -424,7 +426,7 @@ RECURSIVE Lit(_, _)
 Lit(txt, src) == IF txt = <<>> THEN <<>>
                  ELSE LET sp == Head(txt)
                           body == SubSeq(src, sp[1] + 1, sp[2])
-                          line == [k \in 1..sp[3] |-> SP] \o body \o (IF body = <<>> \/ body[Len(body)] # LF THEN <<LF>> ELSE <<>>)
+                          line == [k \in 1..sp[3] |-> SP] \o body \o (IF body = <<>> \/ body[Len(body)] \notin {LF, 13} THEN <<LF>> ELSE <<>>)
                       IN line \o Lit(Tail(txt), src)
 RECURSIVE SkelL(_, _), SkelLSeq(_, _)
 SkelLSeq(ns, src) == [i \in 1..Len(ns) |-> SkelL(ns[i], src)]
@@ -433,17 +435,26 @@ SkelL(n, src) == [k |-> n.k, s |-> n.s, e |-> n.e, a |-> n.a, t |-> n.t, kids |-
 
 \* ---------- generator: documents as sequences of line shapes ----------
 CONSTANTS MaxLines, ShapeSetName
-Shapes == CASE ShapeSetName = "wide" -> { <<97, 10>>, <<10>>, <<32, 32, 10>>, <<62, 32, 97, 10>>, <<62, 97, 10>>, <<62, 32, 62, 32, 97, 10>>, <<62, 10>>, <<45, 32, 97, 10>>, <<42, 32, 97, 10>>, <<43, 32, 97, 10>>, <<49, 46, 32, 97, 10>>, <<50, 46, 32, 97, 10>>, <<49, 48, 46, 32, 97, 10>>, <<49, 41, 32, 97, 10>>, <<45, 32, 32, 32, 97, 10>>, <<45, 32, 32, 32, 32, 32, 97, 10>>, <<45, 10>>, <<49, 46, 10>>, <<32, 97, 10>>, <<32, 32, 97, 10>>, <<32, 32, 32, 97, 10>>, <<32, 32, 32, 32, 97, 10>>, <<32, 32, 32, 32, 32, 97, 10>>, <<32, 32, 32, 32, 32, 32, 97, 10>>, <<35, 32, 97, 10>>, <<35, 35, 32, 97, 10>>, <<35, 10>>, <<61, 61, 61, 10>>, <<45, 45, 45, 10>>, <<45, 45, 10>>, <<61, 10>>, <<42, 42, 42, 10>>, <<96, 96, 96, 10>>, <<126, 126, 126, 10>>, <<96, 96, 96, 96, 10>>, <<32, 32, 96, 96, 96, 10>>, <<32, 32, 32, 32, 96, 96, 96, 10>>, <<96, 96, 96, 32, 97, 10>>, <<32, 32, 45, 32, 97, 10>>, <<32, 32, 32, 45, 32, 97, 10>>, <<32, 32, 32, 32, 45, 32, 97, 10>>, <<32, 32, 62, 32, 97, 10>>, <<97>>, <<45, 32, 97>>, <<96, 96, 96>>, <<32, 32, 49, 46, 32, 97, 10>>, <<62, 32, 45, 32, 97, 10>>, <<45, 32, 62, 32, 97, 10>>, <<62, 32, 96, 96, 96, 10>>, <<45, 32, 96, 96, 96, 10>> }
-            [] ShapeSetName = "core" -> { <<97, 10>>, <<10>>, <<62, 32, 97, 10>>, <<45, 32, 97, 10>>, <<32, 32, 97, 10>>, <<32, 32, 32, 32, 97, 10>>, <<49, 46, 32, 97, 10>>, <<96, 96, 96, 10>>, <<45, 45, 45, 10>>, <<35, 32, 97, 10>>, <<62, 10>>, <<32, 32, 45, 32, 97, 10>> }
-            [] ShapeSetName = "defs" -> { <<91, 97, 93, 58, 32, 47, 117, 10>>, <<91, 97, 93, 58, 10>>, <<47, 117, 10>>, <<34, 116, 34, 10>>, <<91, 97, 93, 58, 32, 47, 117, 32, 34, 116, 10>>, <<117, 34, 10>>, <<120, 10>>, <<62, 32, 91, 97, 93, 58, 32, 47, 117, 10>>, <<62, 32, 34, 116, 34, 10>>, <<45, 32, 91, 97, 93, 58, 10>>, <<32, 32, 47, 117, 10>>, <<61, 61, 61, 10>>, <<10>>, <<91, 97, 93, 58, 32, 47, 117, 32, 34, 116, 34, 32, 120, 10>>, <<91, 98, 93, 58, 32, 60, 118, 32, 119, 62, 32, 39, 116, 39, 10>>, <<32, 91, 97, 93, 58, 32, 47, 117, 10>>, <<32, 32, 91, 98, 93, 58, 32, 47, 118, 10>>, <<91, 97, 93, 58, 32, 47, 117, 32, 40, 116, 41, 10>>, <<62, 32, 120, 10>>, <<42, 42, 42, 10>>, <<91, 97, 93, 10>>, <<91, 97, 93, 58, 32, 60, 62, 10>>, <<91, 97, 10>>, <<98, 93, 58, 32, 47, 117, 10>>, <<91, 97, 93, 58, 32, 47, 117, 32, 39, 116, 39, 32, 32, 10>>, <<32, 32, 32, 39, 117, 39, 32, 121, 10>>, <<91, 97, 93, 58, 32, 47, 117, 92, 10>>, <<91, 93, 58, 32, 47, 117, 10>>, <<91, 97, 93, 32, 58, 32, 47, 117, 10>>, <<91, 97, 93, 58, 47, 117, 10>>, <<35, 32, 104, 10>>, <<91, 97, 93, 58, 32, 47, 117>>, <<32, 32, 32, 32, 91, 98, 93, 58, 32, 47, 118, 10>>, <<9, 91, 98, 93, 58, 32, 47, 118, 10>> }
-            [] ShapeSetName = "html" -> { <<60, 100, 105, 118, 62, 10>>, <<60, 47, 100, 105, 118, 62, 10>>, <<60, 112, 114, 101, 62, 10>>, <<60, 47, 112, 114, 101, 62, 10>>, <<120, 60, 47, 112, 114, 101, 62, 10>>, <<60, 33, 45, 45, 32, 99, 10>>, <<99, 32, 45, 45, 62, 10>>, <<60, 33, 45, 45, 32, 99, 32, 45, 45, 62, 10>>, <<60, 63, 112, 10>>, <<63, 62, 10>>, <<60, 33, 68, 32, 120, 10>>, <<62, 10>>, <<60, 33, 91, 67, 68, 65, 84, 65, 91, 10>>, <<93, 93, 62, 10>>, <<60, 97, 32, 104, 114, 101, 102, 61, 34, 120, 34, 62, 10>>, <<60, 97, 32, 104, 114, 101, 102, 61, 34, 120, 34, 62, 32, 121, 10>>, <<60, 47, 97, 62, 10>>, <<60, 115, 112, 97, 110, 10>>, <<120, 10>>, <<10>>, <<62, 32, 60, 100, 105, 118, 62, 10>>, <<62, 32, 120, 10>>, <<45, 32, 60, 100, 105, 118, 62, 10>>, <<32, 32, 120, 10>>, <<32, 32, 32, 60, 100, 105, 118, 62, 10>>, <<32, 32, 32, 32, 60, 100, 105, 118, 62, 10>>, <<60, 68, 73, 86, 32, 97, 62, 10>>, <<60, 115, 99, 114, 105, 112, 116, 62, 10>>, <<60, 47, 115, 99, 114, 105, 112, 116, 62, 32, 122, 10>>, <<60, 97, 47, 62, 10>>, <<60, 97, 32, 98, 61, 99, 32, 100, 61, 39, 101, 39, 32, 102, 61, 34, 103, 34, 32, 47, 62, 10>>, <<60, 97, 32, 98, 61, 39, 62, 10>>, <<60, 112, 10>>, <<60, 112, 114, 101, 32, 120, 10>>, <<60, 104, 114, 47, 62, 10>>, <<60, 47, 112, 114, 101, 10>>, <<60, 97, 10>>, <<60, 97, 32, 98, 32, 61, 32, 99, 62, 10>>, <<60, 97, 32, 98, 61, 62, 10>>, <<60, 45, 97, 62, 10>>, <<60, 100, 105, 118>> }
-            [] ShapeSetName = "tabs" -> { <<45, 32, 96, 96, 96, 10>>, <<32, 32, 96, 96, 96, 10>>, <<32, 32, 9, 120, 10>>, <<32, 32, 120, 10>>, <<9, 120, 10>>, <<62, 32, 96, 96, 96, 10>>, <<62, 32, 9, 120, 10>>, <<62, 9, 120, 10>>, <<96, 96, 96, 10>>, <<32, 9, 120, 10>>, <<49, 46, 32, 96, 96, 96, 10>>, <<32, 32, 32, 9, 120, 10>>, <<32, 32, 32, 96, 96, 96, 10>>, <<10>>, <<120, 10>>, <<32, 32, 32, 32, 9, 120, 10>>, <<45, 32, 9, 120, 10>>, <<32, 96, 96, 96, 10>>, <<45, 9, 120, 10>>, <<9, 9, 120, 10>>, <<32, 9, 45, 32, 120, 10>>, <<49, 46, 9, 120, 10>> }
+\* the same shape sets with CR or CRLF line endings
+WithEOL(sh, eol) == IF sh[Len(sh)] = LF THEN SubSeq(sh, 1, Len(sh) - 1) \o eol ELSE sh
+RECURSIVE BaseShapes(_)
+Shapes == CASE ShapeSetName = "corecr" -> {WithEOL(sh, <<13>>) : sh \in BaseShapes("core")}
+            [] ShapeSetName = "corecrlf" -> {WithEOL(sh, <<13, 10>>) : sh \in BaseShapes("core")}
+            [] ShapeSetName = "coremixed" -> BaseShapes("core") \cup {WithEOL(sh, <<13>>) : sh \in BaseShapes("core")} \cup {WithEOL(sh, <<13, 10>>) : sh \in BaseShapes("core")}
+            [] ShapeSetName = "defscrlf" -> {WithEOL(sh, <<13, 10>>) : sh \in BaseShapes("defs")}
+            [] ShapeSetName = "htmlcr" -> {WithEOL(sh, <<13>>) : sh \in BaseShapes("html")}
+            [] OTHER -> BaseShapes(ShapeSetName)
+BaseShapes(name) == CASE name = "wide" -> { <<97, 10>>, <<10>>, <<32, 32, 10>>, <<62, 32, 97, 10>>, <<62, 97, 10>>, <<62, 32, 62, 32, 97, 10>>, <<62, 10>>, <<45, 32, 97, 10>>, <<42, 32, 97, 10>>, <<43, 32, 97, 10>>, <<49, 46, 32, 97, 10>>, <<50, 46, 32, 97, 10>>, <<49, 48, 46, 32, 97, 10>>, <<49, 41, 32, 97, 10>>, <<45, 32, 32, 32, 97, 10>>, <<45, 32, 32, 32, 32, 32, 97, 10>>, <<45, 10>>, <<49, 46, 10>>, <<32, 97, 10>>, <<32, 32, 97, 10>>, <<32, 32, 32, 97, 10>>, <<32, 32, 32, 32, 97, 10>>, <<32, 32, 32, 32, 32, 97, 10>>, <<32, 32, 32, 32, 32, 32, 97, 10>>, <<35, 32, 97, 10>>, <<35, 35, 32, 97, 10>>, <<35, 10>>, <<61, 61, 61, 10>>, <<45, 45, 45, 10>>, <<45, 45, 10>>, <<61, 10>>, <<42, 42, 42, 10>>, <<96, 96, 96, 10>>, <<126, 126, 126, 10>>, <<96, 96, 96, 96, 10>>, <<32, 32, 96, 96, 96, 10>>, <<32, 32, 32, 32, 96, 96, 96, 10>>, <<96, 96, 96, 32, 97, 10>>, <<32, 32, 45, 32, 97, 10>>, <<32, 32, 32, 45, 32, 97, 10>>, <<32, 32, 32, 32, 45, 32, 97, 10>>, <<32, 32, 62, 32, 97, 10>>, <<97>>, <<45, 32, 97>>, <<96, 96, 96>>, <<32, 32, 49, 46, 32, 97, 10>>, <<62, 32, 45, 32, 97, 10>>, <<45, 32, 62, 32, 97, 10>>, <<62, 32, 96, 96, 96, 10>>, <<45, 32, 96, 96, 96, 10>> }
+            [] name = "core" -> { <<97, 10>>, <<10>>, <<62, 32, 97, 10>>, <<45, 32, 97, 10>>, <<32, 32, 97, 10>>, <<32, 32, 32, 32, 97, 10>>, <<49, 46, 32, 97, 10>>, <<96, 96, 96, 10>>, <<45, 45, 45, 10>>, <<35, 32, 97, 10>>, <<62, 10>>, <<32, 32, 45, 32, 97, 10>> }
+            [] name = "defs" -> { <<91, 97, 93, 58, 32, 47, 117, 10>>, <<91, 97, 93, 58, 10>>, <<47, 117, 10>>, <<34, 116, 34, 10>>, <<91, 97, 93, 58, 32, 47, 117, 32, 34, 116, 10>>, <<117, 34, 10>>, <<120, 10>>, <<62, 32, 91, 97, 93, 58, 32, 47, 117, 10>>, <<62, 32, 34, 116, 34, 10>>, <<45, 32, 91, 97, 93, 58, 10>>, <<32, 32, 47, 117, 10>>, <<61, 61, 61, 10>>, <<10>>, <<91, 97, 93, 58, 32, 47, 117, 32, 34, 116, 34, 32, 120, 10>>, <<91, 98, 93, 58, 32, 60, 118, 32, 119, 62, 32, 39, 116, 39, 10>>, <<32, 91, 97, 93, 58, 32, 47, 117, 10>>, <<32, 32, 91, 98, 93, 58, 32, 47, 118, 10>>, <<91, 97, 93, 58, 32, 47, 117, 32, 40, 116, 41, 10>>, <<62, 32, 120, 10>>, <<42, 42, 42, 10>>, <<91, 97, 93, 10>>, <<91, 97, 93, 58, 32, 60, 62, 10>>, <<91, 97, 10>>, <<98, 93, 58, 32, 47, 117, 10>>, <<91, 97, 93, 58, 32, 47, 117, 32, 39, 116, 39, 32, 32, 10>>, <<32, 32, 32, 39, 117, 39, 32, 121, 10>>, <<91, 97, 93, 58, 32, 47, 117, 92, 10>>, <<91, 93, 58, 32, 47, 117, 10>>, <<91, 97, 93, 32, 58, 32, 47, 117, 10>>, <<91, 97, 93, 58, 47, 117, 10>>, <<35, 32, 104, 10>>, <<91, 97, 93, 58, 32, 47, 117>>, <<32, 32, 32, 32, 91, 98, 93, 58, 32, 47, 118, 10>>, <<9, 91, 98, 93, 58, 32, 47, 118, 10>> }
+            [] name = "html" -> { <<60, 100, 105, 118, 62, 10>>, <<60, 47, 100, 105, 118, 62, 10>>, <<60, 112, 114, 101, 62, 10>>, <<60, 47, 112, 114, 101, 62, 10>>, <<120, 60, 47, 112, 114, 101, 62, 10>>, <<60, 33, 45, 45, 32, 99, 10>>, <<99, 32, 45, 45, 62, 10>>, <<60, 33, 45, 45, 32, 99, 32, 45, 45, 62, 10>>, <<60, 63, 112, 10>>, <<63, 62, 10>>, <<60, 33, 68, 32, 120, 10>>, <<62, 10>>, <<60, 33, 91, 67, 68, 65, 84, 65, 91, 10>>, <<93, 93, 62, 10>>, <<60, 97, 32, 104, 114, 101, 102, 61, 34, 120, 34, 62, 10>>, <<60, 97, 32, 104, 114, 101, 102, 61, 34, 120, 34, 62, 32, 121, 10>>, <<60, 47, 97, 62, 10>>, <<60, 115, 112, 97, 110, 10>>, <<120, 10>>, <<10>>, <<62, 32, 60, 100, 105, 118, 62, 10>>, <<62, 32, 120, 10>>, <<45, 32, 60, 100, 105, 118, 62, 10>>, <<32, 32, 120, 10>>, <<32, 32, 32, 60, 100, 105, 118, 62, 10>>, <<32, 32, 32, 32, 60, 100, 105, 118, 62, 10>>, <<60, 68, 73, 86, 32, 97, 62, 10>>, <<60, 115, 99, 114, 105, 112, 116, 62, 10>>, <<60, 47, 115, 99, 114, 105, 112, 116, 62, 32, 122, 10>>, <<60, 97, 47, 62, 10>>, <<60, 97, 32, 98, 61, 99, 32, 100, 61, 39, 101, 39, 32, 102, 61, 34, 103, 34, 32, 47, 62, 10>>, <<60, 97, 32, 98, 61, 39, 62, 10>>, <<60, 112, 10>>, <<60, 112, 114, 101, 32, 120, 10>>, <<60, 104, 114, 47, 62, 10>>, <<60, 47, 112, 114, 101, 10>>, <<60, 97, 10>>, <<60, 97, 32, 98, 32, 61, 32, 99, 62, 10>>, <<60, 97, 32, 98, 61, 62, 10>>, <<60, 45, 97, 62, 10>>, <<60, 100, 105, 118>> }
+            [] name = "tabs" -> { <<45, 32, 96, 96, 96, 10>>, <<32, 32, 96, 96, 96, 10>>, <<32, 32, 9, 120, 10>>, <<32, 32, 120, 10>>, <<9, 120, 10>>, <<62, 32, 96, 96, 96, 10>>, <<62, 32, 9, 120, 10>>, <<62, 9, 120, 10>>, <<96, 96, 96, 10>>, <<32, 9, 120, 10>>, <<49, 46, 32, 96, 96, 96, 10>>, <<32, 32, 32, 9, 120, 10>>, <<32, 32, 32, 96, 96, 96, 10>>, <<10>>, <<120, 10>>, <<32, 32, 32, 32, 9, 120, 10>>, <<45, 32, 9, 120, 10>>, <<32, 96, 96, 96, 10>>, <<45, 9, 120, 10>>, <<9, 9, 120, 10>>, <<32, 9, 45, 32, 120, 10>>, <<49, 46, 9, 120, 10>> }
 VARIABLES doc
 Init == doc = <<>>
 Flatten(d) == LET RECURSIVE F(_) F(k) == IF k > Len(d) THEN <<>> ELSE d[k] \o F(k+1) IN F(1)
 \* a shape without a final LF would glue to the next one: it can only be the last line
 Next == /\ Len(doc) < MaxLines
-        /\ (IF doc = <<>> THEN TRUE ELSE doc[Len(doc)][Len(doc[Len(doc)])] = LF)
+        /\ (IF doc = <<>> THEN TRUE ELSE doc[Len(doc)][Len(doc[Len(doc)])] \in {LF, 13})
         /\ \E sh \in Shapes : doc' = Append(doc, sh)
 \* ---- C09 at model level: quoting every line nests the blocks unchanged ----
 RECURSIVE Strip(_), StripSeq(_)
